@@ -8,6 +8,20 @@ _NOTE = ('trusted base: the simulator itself (SimLoop, SimKernel, fake ZeroMQ) '
 _TECH = 'deterministic simulation with fault injection'
 
 META = {
+    'C03': {
+        'level': 'exploration',
+        'text': 'seeded random lives whose workers react to the stop signal '
+                'after delays on both sides of and exactly at '
+                'graceful_timeout and its 0.1 s polling edges, ignore it, or '
+                'die by themselves; all termination causes (stop, restart, '
+                'decr, set, reload modes, kill request with signum / '
+                'graceful_timeout overrides, max_age); stop_children with '
+                'child processes. every termination episode in the kernel '
+                'signal log is judged on exact virtual timestamps (tolerance '
+                '1 us + charged step/spawn costs)',
+        'note': _NOTE + '; exits inside the last polling step are the gray '
+                'zone of the statement and accepted either way',
+        'technique': _TECH + ' (per-pid signal log with virtual timestamps)'},
     'C04': {
         'level': 'fault_enumeration',
         'text': 'seeded random lives over 2-4 watchers with hook outcome '
